@@ -733,10 +733,15 @@ class CallMixin:
             for i, a in enumerate(site_args):
                 st.env[f"arg{i}"] = a
             st.env["$result"] = res
+            n_res = len(res.items) if isinstance(res, TupV) else 0
+            for i in range(n_res):
+                st.env[f"result{i}"] = res.items[i]
             for stmt in ast.parse(textwrap.dedent(gu)).body:
                 self.ghost_assign(stmt, st)
             for i in range(len(site_args)):
                 st.env.pop(f"arg{i}", None)
+            for i in range(n_res):
+                st.env.pop(f"result{i}", None)
         return res
 
     def ghost_assign(self, stmt, st):
